@@ -2,7 +2,7 @@
 
 from __future__ import annotations
 
-from ..rules import expressions, validation
+from ..rules import commute, expressions, validation
 from .common import new_run
 
 LEVEL = "proof"
@@ -35,5 +35,6 @@ def check(model, tier):
     validation.r20_2_inventory(ctx)
     validation.r20_3_who_may_bypass(ctx)
     expressions.r13_4_required_columns(ctx, rule="R20.4")
+    commute.r04_4_set_formulas(ctx, rule="R20.5")
     run.assume("no relation is mutated by a rejected call: follows from C09 (no in-place mutation anywhere)")
     return run
